@@ -2,6 +2,8 @@
 """Seeded property-breaking changes (from independent sub-agents), kept under seeded/<id>/.
   verify <id>            scratch worktree under /tmp: the pinned suite still passes with the patch; demo.py fails with it and passes without
   detect <id> <checks>   apply the patch to /repo, run the checks (quick tier), restore /repo; results are merged into seeded/<id>/meta.json
+  scratch <id> <checks>  the same against a scratch worktree of /repo (VERIF_REPO / VERIF_OUT): /repo and /verif/evidence are not touched,
+                         so several of these can run side by side (VERIF_NPROC limits the workers of each)
 """
 import json, os, re, subprocess, sys
 ROOT = os.path.dirname(os.path.abspath(__file__))
@@ -73,8 +75,36 @@ def detect(i, checks):
     save(i, m)
 
 
+def scratch(i, checks):
+    d = os.path.join(ROOT, 'seeded', i)
+    wt = '/tmp/scratch/sd_%s' % i
+    out = '/tmp/scratch/out_%s' % i
+    os.makedirs('/tmp/scratch', exist_ok=True)
+    sh('git -C /repo worktree remove --force %s' % wt)
+    assert sh('git -C /repo worktree add -q --detach %s HEAD' % wt).returncode == 0
+    try:
+        a = sh('git -C %s apply %s' % (wt, os.path.join(d, 'patch.diff')))
+        assert a.returncode == 0, a.stderr
+        m = load(i)
+        det = m.setdefault('detection', {})
+        for c in checks:
+            env = 'VERIF_REPO=%s VERIF_OUT=%s VERIF_STOP_AFTER=3 ' % (wt, out)
+            r = sh('cd %s && %s ./check %s --tier quick' % (ROOT, env, c))
+            n = len(re.findall(r'^VIOLATION', r.stdout, re.M))
+            first = re.search(r'^  # (.*)$', r.stdout, re.M)
+            brk = re.search(r'^BROKEN.*$', r.stdout, re.M)
+            det[c] = {'exit': r.returncode, 'violation_lines': n, 'first': first.group(1)[:200] if first else (brk.group(0)[:200] if brk else '')}
+            print(i, c, det[c], flush=True)
+        save(i, m)
+    finally:
+        sh('git -C /repo worktree remove --force %s' % wt)
+        sh('rm -rf %s' % out)
+
+
 if __name__ == '__main__':
     if sys.argv[1] == 'verify':
         verify(sys.argv[2])
+    elif sys.argv[1] == 'scratch':
+        scratch(sys.argv[2], sys.argv[3:])
     else:
         detect(sys.argv[2], sys.argv[3:])
